@@ -713,7 +713,8 @@ func GetAPSource(val *fastjson.Value) Source {
 		s.Content = cont
 	}
 	if mimeBytes := val.Get("source", "mediaType").GetStringBytes(); len(mimeBytes) > 0 {
-		s.MediaType.UnmarshalJSON(mimeBytes)
+		// the parser has already removed the quotes of the JSON string: what is left is the media type itself
+		s.MediaType = MimeType(mimeBytes)
 	}
 
 	return s
